@@ -107,34 +107,42 @@ def leafOut : Leaf → Out
 
 /-! ### the evaluation relation (all schedules) -/
 
-inductive Eval {N : Type} (sys : Sys N) (maxDepth : Nat) : Nat → List N → Expr N → Out → Prop
-  | abort {d V} (e : Expr N) : Eval sys maxDepth d V e (.err .abort)
-  | lit {d V} (v : Leaf) : Eval sys maxDepth d V (.lit v) (leafOut v)
+/-- `facts n b`: the sub-problem cache (CachedCheckResolver) may answer node `n` with `b`.  The
+uncached engine is `facts = noFacts`. -/
+abbrev Facts (N : Type) := N → Bool → Prop
+def noFacts {N : Type} : Facts N := fun _ _ => False
+
+inductive Eval {N : Type} (sys : Sys N) (facts : Facts N) (maxDepth : Nat) : Nat → List N → Expr N → Out → Prop
+  | abort {d V} (e : Expr N) : Eval sys facts maxDepth d V e (.err .abort)
+  | lit {d V} (v : Leaf) : Eval sys facts maxDepth d V (.lit v) (leafOut v)
+  /-- cache hit: looked up before the depth and cycle tests, returned without the cycle flag -/
+  | node_hit {d V} (dispatch : Bool) (n : N) (b : Bool) :
+      facts n b → Eval sys facts maxDepth d V (.node dispatch n) (.ok b false false)
   | node_depth {d V} (dispatch : Bool) (n : N) :
-      (if dispatch then d + 1 else d) = maxDepth → Eval sys maxDepth d V (.node dispatch n) (.err .depth)
+      (if dispatch then d + 1 else d) = maxDepth → Eval sys facts maxDepth d V (.node dispatch n) (.err .depth)
   | node_cycle {d V} (dispatch : Bool) (n : N) :
       (if dispatch then d + 1 else d) ≠ maxDepth → n ∈ V →
-      Eval sys maxDepth d V (.node dispatch n) (.ok false true false)
+      Eval sys facts maxDepth d V (.node dispatch n) (.ok false true false)
   | node_eval {d V} (dispatch : Bool) (n : N) (o : Out) :
       (if dispatch then d + 1 else d) ≠ maxDepth → n ∉ V →
-      Eval sys maxDepth (if dispatch then d + 1 else d) (n :: V) (sys.rule n) o →
-      Eval sys maxDepth d V (.node dispatch n) o
+      Eval sys facts maxDepth (if dispatch then d + 1 else d) (n :: V) (sys.rule n) o →
+      Eval sys facts maxDepth d V (.node dispatch n) o
   | or {d V} (es : List (Expr N)) (outs arr : List Out) :
       outs.length = es.length →
-      (∀ i (h1 : i < es.length) (h2 : i < outs.length), Eval sys maxDepth d V es[i] outs[i]) →
-      arr.Perm outs → Eval sys maxDepth d V (.or es) (unionR arr)
+      (∀ i (h1 : i < es.length) (h2 : i < outs.length), Eval sys facts maxDepth d V es[i] outs[i]) →
+      arr.Perm outs → Eval sys facts maxDepth d V (.or es) (unionR arr)
   | and {d V} (es : List (Expr N)) (outs arr : List Out) :
       outs.length = es.length →
-      (∀ i (h1 : i < es.length) (h2 : i < outs.length), Eval sys maxDepth d V es[i] outs[i]) →
-      arr.Perm outs → Eval sys maxDepth d V (.and es) (interR arr)
+      (∀ i (h1 : i < es.length) (h2 : i < outs.length), Eval sys facts maxDepth d V es[i] outs[i]) →
+      arr.Perm outs → Eval sys facts maxDepth d V (.and es) (interR arr)
   | diff {d V} (b s : Expr N) (ob os : Out) (baseFirst : Bool) :
-      Eval sys maxDepth d V b ob → Eval sys maxDepth d V s os →
-      Eval sys maxDepth d V (.diff b s) (exclR baseFirst ob os)
+      Eval sys facts maxDepth d V b ob → Eval sys facts maxDepth d V s os →
+      Eval sys facts maxDepth d V (.diff b s) (exclR baseFirst ob os)
   /-- not what the code does: the subtracted operand is evaluated on a fresh path and its cycle flag is
   ignored.  Used by the reference oracle (and it is the repair suggested for finding F1). -/
   | diff_ideal {d V} (b s : Expr N) (ob os : Out) (baseFirst : Bool) :
-      Eval sys maxDepth d V b ob → Eval sys maxDepth d [] s os →
-      Eval sys maxDepth d V (.diff b s) (exclR baseFirst ob (clearFlag os))
+      Eval sys facts maxDepth d V b ob → Eval sys facts maxDepth d [] s os →
+      Eval sys facts maxDepth d V (.diff b s) (exclR baseFirst ob (clearFlag os))
 
 /-! ### executable instance -/
 
@@ -148,23 +156,27 @@ structure Sched where
 
 def arrange (sc : Sched) (l : List Out) : List Out := if sc.reverse then l.reverse else l
 
-def evalF {N : Type} [DecidableEq N] (sys : Sys N) (maxDepth : Nat) (sc : Sched) :
+def evalF {N : Type} [DecidableEq N] (sys : Sys N) (maxDepth : Nat) (sc : Sched)
+    (cache : N → Option Bool) :
     Nat → Nat → List N → Expr N → Out
   | 0, _, _, _ => .err .abort
   | fuel + 1, d, V, e =>
     match e with
     | .lit v => leafOut v
     | .node dispatch n =>
-      let d' := if dispatch then d + 1 else d
-      if d' = maxDepth then .err .depth
-      else if n ∈ V then .ok false true false
-      else evalF sys maxDepth sc fuel d' (n :: V) (sys.rule n)
-    | .or es => unionR (arrange sc (es.map (evalF sys maxDepth sc fuel d V)))
-    | .and es => interR (arrange sc (es.map (evalF sys maxDepth sc fuel d V)))
+      match (if dispatch then cache n else none) with
+      | some b => .ok b false false
+      | none =>
+        let d' := if dispatch then d + 1 else d
+        if d' = maxDepth then .err .depth
+        else if n ∈ V then .ok false true false
+        else evalF sys maxDepth sc cache fuel d' (n :: V) (sys.rule n)
+    | .or es => unionR (arrange sc (es.map (evalF sys maxDepth sc cache fuel d V)))
+    | .and es => interR (arrange sc (es.map (evalF sys maxDepth sc cache fuel d V)))
     | .diff b s =>
       if sc.ideal then
-        exclR sc.baseFirst (evalF sys maxDepth sc fuel d V b) (clearFlag (evalF sys maxDepth sc fuel d [] s))
-      else exclR sc.baseFirst (evalF sys maxDepth sc fuel d V b) (evalF sys maxDepth sc fuel d V s)
+        exclR sc.baseFirst (evalF sys maxDepth sc cache fuel d V b) (clearFlag (evalF sys maxDepth sc cache fuel d [] s))
+      else exclR sc.baseFirst (evalF sys maxDepth sc cache fuel d V b) (evalF sys maxDepth sc cache fuel d V s)
 
 /-! ### executable outcome *sets*: every arrival order of the two `exclusion` goroutines, children of the
 pooled reducers in program order (breadth limit 1).  Used by drivers to compare with an implementation
@@ -214,8 +226,9 @@ def evalS {N : Type} [DecidableEq N] (sys : Sys N) (maxDepth : Nat) :
       dedup (ob.flatMap (fun x => os.flatMap (fun y => [exclR true x y, exclR false x y])))
 
 /-- The executable evaluator is one of the evaluations the relation allows. -/
-theorem evalF_eval {N : Type} [DecidableEq N] (sys : Sys N) (maxDepth : Nat) (sc : Sched) :
-    ∀ (fuel d : Nat) (V : List N) (e : Expr N), Eval sys maxDepth d V e (evalF sys maxDepth sc fuel d V e) := by
+theorem evalF_eval {N : Type} [DecidableEq N] (sys : Sys N) (maxDepth : Nat) (sc : Sched) (cache : N → Option Bool) :
+    ∀ (fuel d : Nat) (V : List N) (e : Expr N),
+      Eval sys (fun n b => cache n = some b) maxDepth d V e (evalF sys maxDepth sc cache fuel d V e) := by
   intro fuel
   induction fuel with
   | zero => intro d V e; exact .abort e
@@ -224,26 +237,37 @@ theorem evalF_eval {N : Type} [DecidableEq N] (sys : Sys N) (maxDepth : Nat) (sc
     cases e with
     | lit v => exact .lit v
     | node dispatch n =>
-      show Eval sys maxDepth d V (.node dispatch n)
-        (if (if dispatch then d + 1 else d) = maxDepth then .err .depth
-         else if n ∈ V then .ok false true false
-         else evalF sys maxDepth sc fuel (if dispatch then d + 1 else d) (n :: V) (sys.rule n))
-      by_cases hd : (if dispatch then d + 1 else d) = maxDepth
-      · rw [if_pos hd]; exact .node_depth dispatch n hd
-      · rw [if_neg hd]
-        by_cases hm : n ∈ V
-        · rw [if_pos hm]; exact .node_cycle dispatch n hd hm
-        · rw [if_neg hm]; exact .node_eval dispatch n _ hd hm (ih _ _ _)
+      show Eval sys _ maxDepth d V (.node dispatch n)
+        (match (if dispatch then cache n else none) with
+         | some b => .ok b false false
+         | none =>
+           if (if dispatch then d + 1 else d) = maxDepth then .err .depth
+           else if n ∈ V then .ok false true false
+           else evalF sys maxDepth sc cache fuel (if dispatch then d + 1 else d) (n :: V) (sys.rule n))
+      cases hcache : (if dispatch then cache n else none) with
+      | some b =>
+        have : cache n = some b := by
+          cases dispatch <;> simp at hcache
+          exact hcache
+        exact .node_hit dispatch n b this
+      | none =>
+        simp only
+        by_cases hd : (if dispatch then d + 1 else d) = maxDepth
+        · rw [if_pos hd]; exact .node_depth dispatch n hd
+        · rw [if_neg hd]
+          by_cases hm : n ∈ V
+          · rw [if_pos hm]; exact .node_cycle dispatch n hd hm
+          · rw [if_neg hm]; exact .node_eval dispatch n _ hd hm (ih _ _ _)
     | or es =>
       simp only [evalF]
-      refine .or es (es.map (evalF sys maxDepth sc fuel d V)) _ (by simp) ?_ ?_
+      refine .or es (es.map (evalF sys maxDepth sc cache fuel d V)) _ (by simp) ?_ ?_
       · intro i h1 h2; simp only [List.getElem_map]; exact ih _ _ _
       · unfold arrange; split
         · exact List.reverse_perm _
         · exact List.Perm.refl _
     | and es =>
       simp only [evalF]
-      refine .and es (es.map (evalF sys maxDepth sc fuel d V)) _ (by simp) ?_ ?_
+      refine .and es (es.map (evalF sys maxDepth sc cache fuel d V)) _ (by simp) ?_ ?_
       · intro i h1 h2; simp only [List.getElem_map]; exact ih _ _ _
       · unfold arrange; split
         · exact List.reverse_perm _
@@ -253,5 +277,8 @@ theorem evalF_eval {N : Type} [DecidableEq N] (sys : Sys N) (maxDepth : Nat) (sc
       split
       · exact .diff_ideal b s _ _ sc.baseFirst (ih _ _ _) (ih _ _ _)
       · exact .diff b s _ _ sc.baseFirst (ih _ _ _) (ih _ _ _)
+
+/-- the empty cache -/
+def noCache {N : Type} : N → Option Bool := fun _ => none
 
 end OpenFGAVerif.Dfs
